@@ -1580,4 +1580,4 @@ Definition run_case_with (q : quirks) (c : case) : bytes :=
   | _ => s_badcase
   end.
 
-Definition run_case_C16 (c : case) : bytes := run_case_with fixed_quirks c.
+Definition run_case_config (c : case) : bytes := run_case_with fixed_quirks c.
